@@ -257,6 +257,28 @@ fn run_op(line: &str) -> R {
             if s1 != s2 {
                 return Ok(vec!["nondeterministic".into()]);
             }
+            // "a pure function of (key, digest)": the panicking wrapper `sign` gives the same value, and neither is
+            // influenced by what another key signed in between (same digest) or by what this key signed (other digest)
+            let mut ob = [0u8; 32];
+            ob[31] = if b.len() == 32 && b[31] == 1 && b[..31].iter().all(|x| *x == 0) { 2 } else { 1 };
+            let other = PrivateKey::new(&ob).map_err(e)?;
+            let mut d2b = [0u8; 32];
+            d2b.copy_from_slice(&d[..]);
+            d2b[0] ^= 0x80;
+            let d2 = digest_from(&d2b)?;
+            let a = key.sign(d);
+            let o_try = other.try_sign(d).map_err(e)?;
+            let o = other.sign(d);
+            let _ = key.sign(d2);
+            let _ = key.try_sign(d2);
+            let c = key.sign(d);
+            let c_try = key.try_sign(d).map_err(e)?;
+            if a != s1 || c != s1 || c_try != s1 {
+                return Ok(vec!["impure:result-changed-after-other-signatures".into()]);
+            }
+            if o != o_try {
+                return Ok(vec!["impure:other-key-got-a-different-signature-after-this-one".into()]);
+            }
             Ok(sig_fields(&s1))
         }
         "sig.parse" => {
